@@ -321,9 +321,26 @@ pub fn run_c17(s: &mut Sink) {
                     }
                 }
             }
+            // a byte string longer than the verifier's program limit is still a sequence of slots
+            for slots in [999_999usize, 1_000_000, 1_000_001, 1_000_002, 1_048_577] {
+                let mut prog = vec![0u8; slots * 8];
+                for k in [0usize, 1, slots / 2, slots - 2, slots - 1] {
+                    prog[k * 8..k * 8 + 8].copy_from_slice(&I::new(0xb7, (k % 10) as u8, 0, 0, k as i32).bytes());
+                }
+                n += 1;
+                match catch(|| rbpf::ebpf::to_insn_vec(&prog)) {
+                    Err(m) => s.violation(&format!("ebpf/to_insn_vec/{}", panic_class(&m)), format!("to_insn_vec of {slots} slots panicked: {m}"), json!({"kind":"none"})),
+                    Ok(v) => {
+                        let ok = v.len() == slots && [0usize, 1, slots / 2, slots - 2, slots - 1].iter().all(|k| v[*k].to_array()[..] == prog[k * 8..k * 8 + 8]);
+                        if !ok {
+                            s.violation("ebpf/to_insn_vec/differs-from-slot-decoding", format!("to_insn_vec of a {slots}-slot byte string returned {} instructions / wrong fields", v.len()), json!({"kind":"none"}));
+                        }
+                    }
+                }
+            }
             s.count("evaluations", n);
             s.count("distinct_nontrivial", n);
-            s.done("to_insn_vec vs get_insn on all 4-slot programs over 9 slot values");
+            s.done("to_insn_vec vs get_insn on all 4-slot programs over 9 slot values; byte strings of 999,999 .. 1,048,577 slots");
         }
     }
 
@@ -602,15 +619,35 @@ fn c17_builder(s: &mut Sink, g: &mut u64) {
         let mut n = 0u64;
         for a in 0..ctors.len() {
             for b in 0..ctors.len() {
-                let mut code = rbpf::insn_builder::BpfCode::new();
-                build_with(&mut code, ctors[a], 1, 2, 3, 4);
-                build_with(&mut code, ctors[b], 5, 6, -7, -8);
-                build_with(&mut code, ctors[a], 9, 10, 11, 12);
-                let got = code.into_bytes().to_vec();
-                let want = isa::enc(&[I::new(ctor_opcode(ctors[a]), 1, 2, 3, 4), I::new(ctor_opcode(ctors[b]), 5, 6, -7, -8), I::new(ctor_opcode(ctors[a]), 9, 10, 11, 12)]);
-                n += 1;
-                if got != want {
-                    s.violation("builder/sequence/bytes-mismatch", format!("3-instruction builder program gives {} want {}", hex(&got), hex(&want)), json!({"kind":"c17-builder-seq","a":a,"b":b}));
+                // `reads`: bit k set = the bytes are also read after push k (a builder is a value with
+                // a history: reading it must not change what later pushes produce)
+                for reads in 0..4u8 {
+                    let mut code = rbpf::insn_builder::BpfCode::new();
+                    let want = isa::enc(&[I::new(ctor_opcode(ctors[a]), 1, 2, 3, 4), I::new(ctor_opcode(ctors[b]), 5, 6, -7, -8), I::new(ctor_opcode(ctors[a]), 9, 10, 11, 12)]);
+                    let mut bad: Option<(usize, Vec<u8>)> = None;
+                    build_with(&mut code, ctors[a], 1, 2, 3, 4);
+                    if reads & 1 != 0 {
+                        let got = code.into_bytes().to_vec();
+                        if got != want[..8] {
+                            bad = Some((1, got));
+                        }
+                    }
+                    build_with(&mut code, ctors[b], 5, 6, -7, -8);
+                    if reads & 2 != 0 && bad.is_none() {
+                        let got = code.into_bytes().to_vec();
+                        if got != want[..16] {
+                            bad = Some((2, got));
+                        }
+                    }
+                    build_with(&mut code, ctors[a], 9, 10, 11, 12);
+                    let got = code.into_bytes().to_vec();
+                    if got != want && bad.is_none() {
+                        bad = Some((3, got));
+                    }
+                    n += 1;
+                    if let Some((k, got)) = bad {
+                        s.violation("builder/sequence/bytes-mismatch", format!("builder program read after push {k} (reads mask {reads:#04b}) gives {} want {}", hex(&got), hex(&want[..8 * k])), json!({"kind":"c17-builder-seq","a":a,"b":b,"reads":reads}));
+                    }
                 }
             }
         }
@@ -1081,6 +1118,117 @@ pub fn run_c15(s: &mut Sink) {
         s.count("distinct_nontrivial", n);
         s.done("programs of 1-3 instructions");
     }
+    let idx = g + 1;
+    if s.take(idx) {
+        c15_print_family(s, thorough);
+    }
+}
+
+/// The printing entry point `disassemble()`: a program of `slots` slots with one wide load at slot
+/// `at` (moves before, moves and a final exit after). What it prints must be the `desc` of the
+/// entries of `to_insn_vec`, one per line; it must not panic.
+fn c15_print_program(slots: usize, at: usize) -> Vec<I> {
+    let mut p = vec![];
+    while p.len() < slots {
+        if p.len() == at && at + 1 < slots {
+            p.extend(isa::lddw(2, 0x1122_3344_0000_0000 + at as u64));
+        } else if p.len() + 1 == slots {
+            p.push(isa::EXIT);
+        } else {
+            p.push(isa::mov64i(1, p.len() as i32));
+        }
+    }
+    p
+}
+
+/// Runs in a forked child with fd 1 redirected to a memory file. Returns a list of failures.
+fn c15_print_cases(cases: &[(usize, usize)]) -> Vec<u8> {
+    use std::io::Write;
+    let mut out = String::new();
+    unsafe {
+        let fd = libc::memfd_create(b"verif-stdout\0".as_ptr() as *const libc::c_char, 0);
+        assert!(fd >= 0);
+        let _ = std::io::stdout().flush();
+        libc::dup2(fd, 1);
+        for (slots, at) in cases {
+            let prog = c15_print_program(*slots, *at);
+            let bytes = isa::enc(&prog);
+            libc::ftruncate(fd, 0);
+            libc::lseek(fd, 0, libc::SEEK_SET);
+            let r = catch(|| rbpf::disassembler::disassemble(&bytes));
+            let _ = std::io::stdout().flush();
+            match r {
+                Err(m) => {
+                    out.push_str(&format!("{slots} {at} P {}\n", m.replace('\n', " ")));
+                    continue;
+                }
+                Ok(()) => {}
+            }
+            let len = libc::lseek(fd, 0, libc::SEEK_END) as usize;
+            let mut buf = vec![0u8; len];
+            libc::pread(fd, buf.as_mut_ptr() as *mut libc::c_void, len, 0);
+            let printed = String::from_utf8_lossy(&buf).to_string();
+            let want: String = match catch(|| rbpf::disassembler::to_insn_vec(&bytes)) {
+                Ok(v) => v.iter().map(|e| format!("{}\n", e.desc)).collect(),
+                Err(_) => continue, // to_insn_vec's own failures are reported by the other families
+            };
+            if printed != want {
+                let (pl, wl) = (printed.lines().count(), want.lines().count());
+                let first = printed.lines().zip(want.lines()).position(|(a, b)| a != b);
+                out.push_str(&format!("{slots} {at} D printed {pl} lines, to_insn_vec has {wl} entries; first differing line {first:?}\n"));
+            }
+        }
+    }
+    out.into_bytes()
+}
+
+fn c15_print_family(s: &mut Sink, thorough: bool) {
+    let max = if thorough { 4200 } else { 1100 };
+    let mut cases: Vec<(usize, usize)> = vec![];
+    for slots in 1..=max {
+        // the wide load as the last instruction before exit, and (every 7th size) first
+        if slots >= 3 {
+            cases.push((slots, slots - 3));
+        }
+        if slots % 7 == 0 {
+            cases.push((slots, 0));
+        }
+        cases.push((slots, usize::MAX)); // no wide load
+    }
+    for chunk in cases.chunks(400) {
+        let c2 = chunk.to_vec();
+        let end = in_child(120, move || c15_print_cases(&c2));
+        s.count("evaluations", chunk.len() as u64);
+        s.count("distinct_nontrivial", chunk.len() as u64);
+        match end {
+            ChildEnd::Ok(b) => {
+                for line in String::from_utf8_lossy(&b).lines() {
+                    let mut it = line.splitn(4, ' ');
+                    let slots: usize = it.next().unwrap().parse().unwrap();
+                    let at: usize = it.next().unwrap().parse().unwrap();
+                    let kind = it.next().unwrap();
+                    let rest = it.next().unwrap_or("");
+                    let rp = json!({"kind":"disasm-print","slots":slots,"at":at});
+                    if kind == "P" {
+                        s.violation(&format!("disasm/disassemble()/{}", panic_class(rest)), format!("disassemble() of a {slots}-slot program with a wide load at slot {at} panicked: {rest}"), rp);
+                    } else {
+                        s.violation("disasm/disassemble()/output-differs-from-entries", format!("{slots}-slot program, wide load at slot {at}: {rest}"), rp);
+                    }
+                }
+            }
+            ChildEnd::Signal(sig) => s.violation(&format!("disasm/disassemble()/crash:{}", signame(sig)), format!("disassemble() died with {} in sizes {}..={}", signame(sig), chunk[0].0, chunk[chunk.len() - 1].0), json!({"kind":"none"})),
+            ChildEnd::Exit(c) => s.violation("harness/disasm-print/child-exit", format!("child exit {c}"), json!({"kind":"none"})),
+        }
+    }
+    s.done(&format!("disassemble() (the printing entry point) on programs of every size 1..={max} with a wide load at the end / at the start / absent"));
+}
+
+pub fn replay_disasm_print(v: &Value) -> Vec<String> {
+    let c = vec![(v["slots"].as_u64().unwrap() as usize, v["at"].as_u64().unwrap() as usize)];
+    match in_child(60, move || c15_print_cases(&c)) {
+        ChildEnd::Ok(b) => String::from_utf8_lossy(&b).lines().map(|l| format!("disasm/disassemble(): {l}")).collect(),
+        other => vec![format!("disasm/disassemble(): child ended with {:?}", match other { ChildEnd::Signal(s) => s, ChildEnd::Exit(c) => c, _ => 0 })],
+    }
 }
 
 pub fn replay_disasm(v: &Value) -> Vec<String> {
@@ -1127,7 +1275,7 @@ const C13_REGS: [i128; 9] = [0, 1, 9, 10, 11, 15, 16, 17, 99];
 // the last three of each: far out of range, around 2^63 and 2^64 (must be errors, not wrapped)
 const C13_OFFS: [i128; 10] = [0, 1, -1, 32767, 32768, -32768, -32769, 0x7fff_ffff_ffff_ffff, 0xffff_ffff_ffff_ffff, 0xffff_ffff_ffff_fffc];
 const C13_IMMS: [i128; 13] = [0, 1, -1, 0x7fff_ffff, 0x8000_0000, -0x8000_0000, -0x8000_0001, 0xffff_ffff, 0x1234, 0x7fff_ffff_ffff_ffff, 0x8000_0000_0000_0000, 0xffff_ffff_ffff_ffff, -0xffff_ffff_ffff_ffff];
-const C13_IMM64: [i128; 12] = [0, 1, -1, 0x8000_0000, 0xffff_ffff, 0x1_0000_0000, 0x7fff_ffff_ffff_ffff, -0x7fff_ffff_ffff_ffff, 0x1122_3344_5566_7788, -0x8000_0000, 0xffff_ffff_0000_0000u64 as i128, 0x8000_0000_0000_0001u64 as i128];
+const C13_IMM64: [i128; 14] = [-0x8000_0000_0000_0000, -0x7fff_ffff_ffff_ffff - 0, 0, 1, -1, 0x8000_0000, 0xffff_ffff, 0x1_0000_0000, 0x7fff_ffff_ffff_ffff, -0x7fff_ffff_ffff_ffff, 0x1122_3344_5566_7788, -0x8000_0000, 0xffff_ffff_0000_0000u64 as i128, 0x8000_0000_0000_0001u64 as i128];
 
 /// Is this spelling of this value inside C13's claim for an operand of `bits` width?
 /// A hexadecimal literal at or above 2^63 denotes a 64-bit pattern: meaningful for lddw, but for
@@ -1696,6 +1844,11 @@ pub fn run_c14(s: &mut Sink) {
                 c14_check(s, &format!("lddw r1, -{}", toks[a].0), &format!("tokens:neg-operand-{}", toks[a].1));
                 c14_check(s, &format!("ja +{}", toks[a].0), &format!("tokens:plus-operand-{}", toks[a].1));
                 n += 6;
+                // every signed position
+                for tmpl in ["ldxw r1, [r2-{}]", "ldxw r1, [r2 - {}]", "ldxw r1, [r2 + {}]", "stw [r1-{}], 1", "stxdw [r1+{}], r2", "stw [r1+4], -{}", "lddw r1, +{}", "ja -{}", "jeq r1, -{}, +1", "jeq r1, 1, -{}", "call -{}", "mov32 r1, -{}", "ldabsw -{}", "ldindw r1, -{}", "be16 r{}", "exit {}", "-{}", "+{}"] {
+                    c14_check(s, &tmpl.replace("{}", &toks[a].0), &format!("tokens:signed-position-{}", toks[a].1));
+                    n += 1;
+                }
                 // operand lists of every length 0..=12 made of this token, after each mnemonic kind
                 for mn in ["add", "exit", "call", "lddw", "ldxw", "jeq", "nosuchinsn"] {
                     for k in 0..=12usize {
@@ -1779,6 +1932,42 @@ pub fn run_c14(s: &mut Sink) {
     if !s.expired() {
         s.done("one and two character insertions (128 ASCII + 9 non-ASCII characters) at every position of 5 base texts");
     }
+    // (iv) whole programs: every sequence of 1..=3 (thorough 4) instructions over wide loads, moves,
+    // exit and jumps / calls with every displacement -4..=4 - targets inside the program, on the second
+    // half of a wide load, one past the end, far outside
+    let mut insns: Vec<String> = vec!["lddw r1, 0x1122334455667788".into(), "exit".into(), "mov r0, 1".into()];
+    for k in -4i32..=4 {
+        insns.push(format!("ja {k:+}"));
+        insns.push(format!("jeq r0, 1, {k:+}"));
+        insns.push(format!("call {k}"));
+    }
+    let depth = if thorough { 4 } else { 3 };
+    for a in 0..insns.len() {
+        let idx = g;
+        g += 1;
+        if !s.take(idx) {
+            continue;
+        }
+        let mut n = 0u64;
+        let mut stack = vec![insns[a].clone()];
+        c14_check(s, &insns[a], "programs");
+        n += 1;
+        for _ in 1..depth {
+            let mut next = Vec::with_capacity(stack.len() * insns.len());
+            for p in &stack {
+                for i in &insns {
+                    let t = format!("{p}\n{i}");
+                    c14_check(s, &t, "programs");
+                    n += 1;
+                    next.push(t);
+                }
+            }
+            stack = next;
+        }
+        s.count("evaluations", n);
+        s.count("distinct_nontrivial", n);
+    }
+    s.done("programs of 1..=3 instructions with jumps and calls of every displacement -4..=4");
 }
 
 pub fn replay_asm_total(v: &Value) -> Vec<String> {
@@ -1835,10 +2024,22 @@ fn is_clause1(p: &[I]) -> bool {
 }
 
 fn c16_check(s: &mut Sink, p: &[I], class: &str) {
+    c16_check_x(s, p, class, false)
+}
+
+/// `junk_second_half`: the slot after a wide load carries a non-zero opcode byte. Such a string is not
+/// "made of whole instructions" (C15 says nothing about disassembling it), so a refusal or panic of
+/// the disassembler is not C16's business; but if text comes out and the assembler accepts it, the
+/// result must be the canonical form (the slot is the wide load's second half: only its immediate counts).
+fn c16_check_x(s: &mut Sink, p: &[I], class: &str, junk_second_half: bool) {
     let bytes = isa::enc(p);
-    let rp = json!({"kind":"roundtrip","prog":hex(&bytes)});
+    let rp = json!({"kind":"roundtrip","prog":hex(&bytes),"junk_second_half":junk_second_half});
     let text = match catch(|| rbpf::disassembler::to_insn_vec(&bytes).iter().map(|e| e.desc.clone()).collect::<Vec<_>>().join("\n")) {
         Ok(t) => t,
+        Err(_) if junk_second_half => {
+            s.outcome("clause2-disassembler-refused", 1);
+            return;
+        }
         Err(m) => {
             s.violation(&format!("roundtrip/{class}/disasm-{}", panic_class(&m)), format!("disassembly of {} panicked: {m}", hex(&bytes)), rp);
             return;
@@ -2082,12 +2283,39 @@ pub fn run_c16(s: &mut Sink) {
         s.count("distinct_nontrivial", n);
     }
     s.done("twins: every opcode, pairs and triples of instructions equal or differing in one field");
+    // second clause: the slot after a wide load with other fields set, including its opcode byte
+    let idx = g;
+    if s.take(idx) {
+        let mut n = 0u64;
+        let l = isa::lddw(3, 0x1122_3344_8899_aabb);
+        for opc2 in [0u8, 0xb7, 0x95, 0x05, 0x07, 0x18, 0x85, 0x61, 0xd4, 0xff, 0x01] {
+            for (d2, s2, o2) in [(0u8, 0u8, 0i16), (1, 0, 0), (0, 2, 0), (0, 0, 1), (9, 10, -1), (15, 15, i16::MIN)] {
+                for tail in [vec![isa::EXIT], vec![isa::mov64i(0, 1), isa::EXIT], vec![]] {
+                    for lead in [vec![], vec![isa::mov64i(1, 2)]] {
+                        let mut p: Vec<I> = lead.clone();
+                        p.push(l[0]);
+                        p.push(I::new(opc2, d2, s2, o2, l[1].imm));
+                        p.extend(tail.iter());
+                        c16_check_x(s, &p, "lddw-second-half-fields", opc2 != 0);
+                        n += 1;
+                    }
+                }
+            }
+        }
+        s.count("evaluations", n);
+        s.count("distinct_nontrivial", n);
+        s.done("wide loads whose second slot has other fields set (opcode byte, registers, offset)");
+    }
+}
+
+pub fn replay_roundtrip_junk(v: &Value) -> bool {
+    v["junk_second_half"].as_bool().unwrap_or(false)
 }
 
 pub fn replay_roundtrip(v: &Value) -> Vec<String> {
     let p = isa::dec(&unhex(v["prog"].as_str().unwrap()));
     let mut s = Sink::new("C16", Tier::Quick, 0, 1, None, None, 3600);
-    c16_check(&mut s, &p, "replay");
+    c16_check_x(&mut s, &p, "replay", replay_roundtrip_junk(v));
     let r = s.finish();
     r["violations"].as_array().unwrap().iter().map(|x| format!("{}: {}", x["sig"].as_str().unwrap(), x["detail"].as_str().unwrap())).collect()
 }
